@@ -2,6 +2,7 @@ import Goat.Base.Drive
 import Goat.Model.JWS
 import Goat.Model.JWT
 import Goat.Model.NumericDate
+import Goat.Model.JWTFull
 /-
 Driver ops of C02.
 
@@ -9,6 +10,7 @@ Driver ops of C02.
         NewMessage/NewRawMessage, Sign per signer, Compact/MarshalJSON → ok bytes
   c02.jws.remarshal <data>  Parse then MarshalJSON → ok bytes
   c02.nd.encode <int ns> → ok str ;  c02.nd.decode <str> → ok int ns     (NumericDate text of a time claim)
+  c02.jwt.full <hdr> <claims (C10 Claims wire)> <key handle> <cfg> → ok [token, header', claims']   Sign then Parse, real claims codec
   c02.jwt.sign <hdr> <claims> <key handle> → ok bytes
   c02.sig.sign <key handle> <input> → ok bytes
   hdr = {"raw":obj,"alg":str,"jku":str?,"jwk":obj?,"kid":str,"x5u":str?,"x5c":[bytes…]?,"x5t":bytes?,
@@ -70,6 +72,16 @@ def ops : OpTable := [
     (PO.ofOutcome ((Model.NumericDate.encode (arg a 0).asInt).bind (fun s => .ok (.str s))) : PO Wire).toOp),
   ("c02.nd.decode", fun a =>
     (PO.ofOutcome ((Model.NumericDate.decode (arg a 0).asStr).bind (fun t => .ok (.int t))) : PO Wire).toOp),
+  -- the assembled JWT round trip: Sign with the real claims encoder, then Parse with the real claims step
+  ("c02.jwt.full", fun a =>
+    (do
+      let k ← keyOf (arg a 2)
+      let d ← Model.JWT.signFull (decHeader (arg a 0)) (Model.JWTClaims.Claims.ofWire (arg a 1)) k
+      let cfgW := arg a 3
+      let cfg : Model.JWT.Cfg := { configured := (fld cfgW "configured").asBool, allowAny := (fld cfgW "allowAny").asBool,
+                                    allowed := (fld cfgW "allowed").asArr.map Wire.asStr }
+      let r ← Model.JWT.parseFull cfg d
+      pure (.arr [.bytes d, r.1.toWire, r.2.toWire]) : PO Wire).toOp),
   ("c02.jwt.sign", fun a =>
     (do
       let k ← keyOf (arg a 2)
